@@ -187,6 +187,13 @@ theorem src_header_shape (c : OutputFile) :
   rw [header_eq]
   simp only [header, nl, betterprotoImport, List.append_eq, List.append_assoc]
 
+/-- the head of the header (`preamble`: the first three pieces as written, whose wording the model leaves open) is
+    nothing but comment lines and blank lines — the one expression, the list of input files, stands inside the
+    comment line `# sources: …` — followed by the opening of `__all__ = (`: no import, no statement hides there -/
+theorem src_preamble_is_comments (c : OutputFile) : preambleOk (preamble c) = true := by
+  unfold preamble
+  rfl
+
 /-- **one `import <m>` line per element of `python_module_imports`**: the lines are those of a permutation of the
     set (its `|sort`), nothing added, nothing dropped -/
 theorem src_module_import_lines (s : PySet) :
